@@ -1,3 +1,201 @@
+// vhook is the hook agent of the runtime monitors: the process boundary at which
+// the harness observes what shell-operator hands to a user's hook.
+//
+// Generated hook files are tiny sh wrappers: exec vhook "$0" "$@".
+// Everything is driven by files under $VHOOK_DIR:
+//
+//	root                      absolute path of the hooks directory
+//	config/<key>.out|.exit    what to print / exit with on --config
+//	plan/<key>/<n>.json       directive of the n-th normal execution (default.json as fallback)
+//	seq/<key>.<n>             created with O_EXCL to number executions
+//	exec/<key>.<n>.ctx        raw copy of the binding context file
+//	log.jsonl                 one line per invocation (config / begin / end)
 package main
 
-func main() {}
+import (
+		"encoding/json"
+	"fmt"
+	"os"
+	"path/filepath"
+	"sort"
+	"strings"
+	"syscall"
+	"time"
+	"unsafe"
+
+	"verif/harness/vhk"
+)
+
+func monoNs() int64 {
+	var ts syscall.Timespec
+	// CLOCK_MONOTONIC = 1: system-wide, comparable between processes.
+	_, _, _ = syscall.Syscall(syscall.SYS_CLOCK_GETTIME, 1, uintptr(unsafe.Pointer(&ts)), 0)
+	return ts.Sec*1e9 + ts.Nsec
+}
+
+func appendLog(dir string, rec map[string]any) {
+	b, _ := json.Marshal(rec)
+	f, err := os.OpenFile(filepath.Join(dir, "log.jsonl"), os.O_CREATE|os.O_WRONLY|os.O_APPEND, 0o644)
+	if err != nil {
+		return
+	}
+	_, _ = f.Write(append(b, '\n'))
+	_ = f.Close()
+}
+
+func main() {
+	dir := os.Getenv("VHOOK_DIR")
+	if dir == "" || len(os.Args) < 2 {
+		fmt.Fprintln(os.Stderr, "vhook: VHOOK_DIR not set")
+		os.Exit(97)
+	}
+	hookPath := os.Args[1]
+	args := os.Args[2:]
+	rootB, _ := os.ReadFile(filepath.Join(dir, "root"))
+	root := strings.TrimSpace(string(rootB))
+	abs := hookPath
+	if !filepath.IsAbs(abs) {
+		wd, _ := os.Getwd()
+		abs = filepath.Join(wd, abs)
+	}
+	rel, err := filepath.Rel(root, abs)
+	if err != nil {
+		rel = abs
+	}
+	key := vhk.Key(rel)
+	cwd, _ := os.Getwd()
+
+	if len(args) > 0 && args[0] == "--config" {
+		appendLog(dir, map[string]any{"kind": "config", "hook": rel, "pid": os.Getpid(), "cwd": cwd, "argv": args, "mono": monoNs()})
+		out, _ := os.ReadFile(filepath.Join(dir, "config", key+".out"))
+		_, _ = os.Stdout.Write(out)
+		code := 0
+		if b, err := os.ReadFile(filepath.Join(dir, "config", key+".exit")); err == nil {
+			fmt.Sscanf(strings.TrimSpace(string(b)), "%d", &code)
+		}
+		os.Exit(code)
+	}
+
+	// number this execution
+	n := 0
+	for ; n < 100000; n++ {
+		f, err := os.OpenFile(filepath.Join(dir, "seq", fmt.Sprintf("%s.%d", key, n)), os.O_CREATE|os.O_EXCL|os.O_WRONLY, 0o644)
+		if err == nil {
+			_ = f.Close()
+			break
+		}
+	}
+	start := monoNs()
+	envNames := []string{"BINDING_CONTEXT_PATH", "METRICS_PATH", "KUBERNETES_PATCH_PATH", "ADMISSION_RESPONSE_PATH", "VALIDATING_RESPONSE_PATH", "CONVERSION_RESPONSE_PATH"}
+	envs := map[string]string{}
+	sizes := map[string]int64{}
+	for _, e := range envNames {
+		v, ok := os.LookupEnv(e)
+		if !ok {
+			continue
+		}
+		envs[e] = v
+		if st, err := os.Stat(v); err == nil {
+			sizes[e] = st.Size()
+		} else {
+			sizes[e] = -1
+		}
+	}
+	ctxBytes, ctxErr := os.ReadFile(envs["BINDING_CONTEXT_PATH"])
+	ctxFile := filepath.Join(dir, "exec", fmt.Sprintf("%s.%d.ctx", key, n))
+	_ = os.WriteFile(ctxFile, ctxBytes, 0o644)
+	var tmpListing []string
+	if p := envs["BINDING_CONTEXT_PATH"]; p != "" {
+		if ents, err := os.ReadDir(filepath.Dir(p)); err == nil {
+			for _, e := range ents {
+				tmpListing = append(tmpListing, e.Name())
+			}
+			sort.Strings(tmpListing)
+		}
+	}
+	rec := map[string]any{"kind": "begin", "hook": rel, "n": n, "pid": os.Getpid(), "cwd": cwd, "argv": args, "env": envs, "sizes": sizes,
+		"ctx_file": ctxFile, "tmp_listing": tmpListing, "start_mono": start}
+	if ctxErr != nil {
+		rec["ctx_err"] = ctxErr.Error()
+	}
+	appendLog(dir, rec)
+
+	var d vhk.Directive
+	b, err := os.ReadFile(filepath.Join(dir, "plan", key, fmt.Sprintf("%d.json", n)))
+	if err != nil {
+		b, err = os.ReadFile(filepath.Join(dir, "plan", key, "default.json"))
+	}
+	if err == nil {
+		_ = json.Unmarshal(b, &d)
+	}
+	if d.SleepMs > 0 {
+		time.Sleep(time.Duration(d.SleepMs) * time.Millisecond)
+	}
+	write := func(env, content string) {
+		if content == "" || envs[env] == "" {
+			return
+		}
+		_ = os.WriteFile(envs[env], []byte(content), 0o644)
+	}
+	write("METRICS_PATH", d.Metrics)
+	write("KUBERNETES_PATCH_PATH", d.Patch)
+	write("ADMISSION_RESPONSE_PATH", d.Admission)
+	if strings.HasPrefix(d.Conversion, "@convert") {
+		write("CONVERSION_RESPONSE_PATH", convert(ctxBytes, rel, d.Conversion == "@convert-drop-one"))
+	} else {
+		write("CONVERSION_RESPONSE_PATH", d.Conversion)
+	}
+	if d.Stdout != "" {
+		fmt.Print(d.Stdout)
+	}
+	appendLog(dir, map[string]any{"kind": "end", "hook": rel, "n": n, "pid": os.Getpid(), "end_mono": monoNs(), "exit": d.Exit, "kill": d.Kill})
+	if d.Kill {
+		_ = syscall.Kill(os.Getpid(), syscall.SIGKILL)
+		time.Sleep(time.Second)
+	}
+	os.Exit(d.Exit)
+}
+
+// convert turns every object of the first context's review request into
+// toVersion and appends "<hook>:<from>-><to>" to the annotation verif/trail.
+func convert(ctx []byte, hook string, dropOne bool) string {
+	var contexts []map[string]any
+	if err := json.Unmarshal(ctx, &contexts); err != nil || len(contexts) == 0 {
+		return `{"failedMessage":"vhook: cannot parse context"}`
+	}
+	c := contexts[0]
+	to, _ := c["toVersion"].(string)
+	from, _ := c["fromVersion"].(string)
+	review, _ := c["review"].(map[string]any)
+	req, _ := review["request"].(map[string]any)
+	objs, _ := req["objects"].([]any)
+	var out []any
+	for i, o := range objs {
+		if dropOne && i == 0 {
+			continue
+		}
+		m, ok := o.(map[string]any)
+		if !ok {
+			continue
+		}
+		m["apiVersion"] = to
+		md, _ := m["metadata"].(map[string]any)
+		if md == nil {
+			md = map[string]any{}
+			m["metadata"] = md
+		}
+		an, _ := md["annotations"].(map[string]any)
+		if an == nil {
+			an = map[string]any{}
+			md["annotations"] = an
+		}
+		trail, _ := an["verif/trail"].(string)
+		if trail != "" {
+			trail += ","
+		}
+		an["verif/trail"] = trail + hook + ":" + from + "->" + to
+		out = append(out, m)
+	}
+	b, _ := json.Marshal(map[string]any{"convertedObjects": out})
+	return string(b)
+}
